@@ -193,6 +193,23 @@ def _check_fit(bad, M, lf, b):
                     dict(info, line=line.tolist(), first=b["y"][0], last=b["y"][-1])
         bad.guard("endpoint-fit-interpolates", interp)
 
+        if ty == "float64" and b["x"][0] != b["x"][-1]:
+            def fitshift():
+                # the same points far to the right (2^30, 2^40: abscissae stay exactly representable): the end-point fit is
+                # translation covariant - same slope, still through the first and last point.  A relative comparison of the
+                # two end abscissae (np.isclose / math.isclose) calls such a range "vertical".
+                for X0 in (2.0 ** 30, 2.0 ** 40):
+                    xs = x + X0
+                    for name, got in (("linear_fit", lf.linear_fit(xs.copy(), y.copy())),
+                                      ("linear_fit_points", lf.linear_fit_points(np.column_stack([xs, y])))):
+                        gm = float(got[1])
+                        assert numeric.close(gm, em, rel=1e-9, ab=1e-12), dict(info, fn=name, x_offset=X0, got_slope=gm, expected_slope=em)
+                        line = np.asarray(lf.linear_transform(xs.copy(), got), dtype=float)
+                        tol = 1e-3 * (1.0 + abs(em))
+                        assert abs(line[0] - b["y"][0]) <= tol and abs(line[-1] - b["y"][-1]) <= tol, \
+                            dict(info, fn=name, x_offset=X0, line=[float(line[0]), float(line[-1])], first=b["y"][0], last=b["y"][-1])
+            bad.guard("equals-definition(linear_fit)", fitshift)
+
         def res():
             for name, got, exp in (("linear_fit_residuals", lf.linear_fit_residuals(x.copy(), y.copy()), fitres),
                                    ("linear_fit_residuals_points", lf.linear_fit_residuals_points(pts.copy()), fitres),
